@@ -150,6 +150,7 @@ Proof.
     rewrite (phase_done _ p (cl_done _ (closed_set_boot C a (KLive false) K))) in H. injection H as <- <-. apply keep_dl; auto.
   - destruct (nth_error (c_boots C) a) as [[[p rid'] [|pend|]]|]; try (injection H as <- <-; apply keep_dl; auto).
     rewrite (phase_done _ p (cl_done _ (closed_set_boot C a KDead K))) in H. destruct pend; injection H as <- <-; apply keep_dl; auto.
+  - (* EResend *) rewrite Cc in H. injection H as <- <-. apply keep_dl; auto.
 Qed.
 
 (* ------------------------------------------------------------------ every reachable closed state *)
